@@ -128,6 +128,12 @@ func c18run(cs c18case) (sig, detail string) {
 					want1 = first[1]
 				}
 				for i, w := range []string{want0, want1} {
+					// (when the scanned node is the last one and it is finished, the statement allows the proxy to
+					// answer 0 at once instead of "next node, cursor 0" followed by the terminating reply)
+					lastDone := len(cs.Chains) == 1 && w == "281474976710656" && rs[i].Kind == '*' && len(rs[i].Arr) == 2 && string(rs[i].Arr[0].Str) == "0"
+					if lastDone {
+						continue
+					}
 					if rs[i].Kind != '*' || len(rs[i].Arr) != 2 || string(rs[i].Arr[0].Str) != w {
 						sig, detail = "overlapping-scans-get-wrong-cursor", fmt.Sprintf("reply %d carries cursor %s, expected %s", i, rs[i], w)
 						return
